@@ -139,7 +139,8 @@ ExtExec ==
             LET ev == [t |-> "Exec", n |-> NextNonce(c), tok |-> b.tok, bn |-> b.n, eh |-> xw[c].h + 1,
                        txh |-> "x" \o ToString(cnt + 1), fp |-> fp, fpr |-> "e9"]
                 paid == SumOver(b.txs, LAMBDA tr : tr.a)
-                act == [k |-> "ExtExec", i |-> 0, chain |-> c, ev |-> ev, paid |-> paid]
+                cold == SumOver(b.txs, LAMBDA tr : IF IsColdTransfer(c, tr) THEN tr.a ELSE 0)
+                act == [k |-> "ExtExec", i |-> 0, chain |-> c, ev |-> ev, paid |-> paid, cold |-> cold]
             IN ExtDo(act, XwApply(xw, act))
 
 ExtMine ==
@@ -218,6 +219,13 @@ ConfirmGood ==
                 Do([k |-> "Confirm", i |-> 0, by |-> by, chain |-> c, tx |-> tx, ext |-> hub.ch[c].ve[v], key |-> hub.ch[c].ve[v]])
     /\ xw' = XwObserve(xw, hub')
 
+\* a passed cold-storage proposal (governance): collateral is to be moved to the chain's cold storage address
+GovCold ==
+    /\ hub.inb /\ \A c \in SendChains : hub.ch[c].txid < MaxSends
+    /\ \E c \in SendChains, d \in Denoms, amt \in {50, 333} :
+          Do([k |-> "Gov", i |-> 0, p |-> "ColdStorage", chain |-> c, denom |-> d, amt |-> amt])
+    /\ xw' = XwObserve(xw, hub')
+
 \* macro steps (several recorded actions in one model step) that make long productive behaviours likely in simulation
 DoSeq(acts) ==   \* acts: sequence of action records without index
     LET F[k \in 0..Len(acts)] ==
@@ -245,6 +253,7 @@ SendBatch ==
 
 Kinds(fam) ==
     CASE fam = "econ"   -> {"Begin", "End", "Send", "Cancel", "ReqBatch", "ExtDeposit", "ExtExec", "ExtMine", "AttestNext"}
+      [] fam = "gov"    -> {"Begin", "End", "Send", "Cancel", "ReqBatch", "ExtDeposit", "ExtExec", "ExtMine", "AttestNext", "GovCold"}
       [] fam = "fees"   -> {"Begin", "NextBlock", "SendBatch", "Send", "ExtDeposit", "ExtExec", "AttestNext", "StakeChange"}
       [] fam = "attest" -> {"Begin", "End", "ClaimOne", "StakeChange"}
       [] fam = "registry" -> {"SetKeys"}
@@ -256,7 +265,7 @@ ActionOf(kind) ==
       [] kind = "ReqBatch" -> ReqBatch [] kind = "ExtDeposit" -> ExtDeposit [] kind = "ExtExec" -> ExtExec
       [] kind = "ExtMine" -> ExtMine [] kind = "AttestNext" -> AttestNext [] kind = "ClaimOne" -> ClaimOne
       [] kind = "StakeChange" -> StakeChange [] kind = "SetKeys" -> SetKeys [] kind = "Confirm" -> Confirm [] kind = "ConfirmGood" -> ConfirmGood
-      [] kind = "NextBlock" -> NextBlock [] kind = "SendBatch" -> SendBatch [] OTHER -> FALSE
+      [] kind = "NextBlock" -> NextBlock [] kind = "SendBatch" -> SendBatch [] kind = "GovCold" -> GovCold [] OTHER -> FALSE
 
 Next ==
     /\ cnt < MaxLen
@@ -277,7 +286,7 @@ View == <<hub, xw, g, bad>>
 DumpCex == IF KeepHist THEN JsonSerialize(IOEnv.VERIF_CEX, hist) ELSE TRUE
 NoStepViolation == (\A f \in bad : f[1] \notin WatchNames \/ Excused(f)) \/ (DumpCex /\ FALSE)
 
-Solvency == Solvent(hub, xw) \/ (DumpCex /\ FALSE)
+Solvency == SolventG(hub, xw, g) \/ (DumpCex /\ FALSE)
 
 \* ---------------------------------------------------------------- script output (simulation mode)
 \* one file per behaviour: $VERIF_OUT/s<k>.json, k = number of the behaviour in this simulation run
